@@ -809,6 +809,67 @@ def _if_has_else(st):
     return bool(cur.orelse)
 
 
+def _yields_never_none(hnode):
+    """every `yield e` of the generator gives a value that cannot be None: a non-None constant, a tuple display, or a loop
+    variable ranging over np.unique(..) / range(..) / np.arange(..) / enumerate(..) (assumption A-nonnull-unique, DESIGN.md 13.4:
+    the elements of those are numbers or numpy scalars; np.unique cannot sort an object array holding None next to anything else)"""
+    targets = {}
+    for n in walk_own(hnode):
+        if isinstance(n, ast.For) and isinstance(n.target, ast.Name) and isinstance(n.iter, ast.Call) and U(n.iter.func) in ("np.unique", "range", "np.arange", "numpy.unique"):
+            targets[n.target.id] = targets.get(n.target.id, 0) + 1
+    stores = {}
+    for n in walk_own(hnode):
+        if isinstance(n, ast.Name) and isinstance(n.ctx, ast.Store):
+            stores[n.id] = stores.get(n.id, 0) + 1
+    ys = [n for n in walk_own(hnode) if isinstance(n, (ast.Yield, ast.YieldFrom))]
+    if not ys:
+        return False
+    for y in ys:
+        if isinstance(y, ast.YieldFrom) or y.value is None:
+            return False
+        v = y.value
+        if isinstance(v, ast.Constant) and v.value is not None:
+            continue
+        if isinstance(v, ast.Tuple):
+            continue
+        if isinstance(v, ast.Name) and targets.get(v.id) == 1 and stores.get(v.id) == 1:
+            continue
+        return False
+    return True
+
+
+def _first_of_generator(stmts, repo, f, new_funcs, resolve_helper):
+    """T = next(G(..), None); if T is not None: BODY    (BODY always raises / returns; T is not mentioned anywhere else; G a new
+    generator helper whose yields are never None)   ->   for T in G(..): BODY      - only the first item can matter either way"""
+    out = []
+    i = 0
+    while i < len(stmts):
+        st = stmts[i]
+        nxt = stmts[i + 1] if i + 1 < len(stmts) else None
+        done = False
+        if isinstance(st, ast.Assign) and len(st.targets) == 1 and isinstance(st.targets[0], ast.Name) and isinstance(st.value, ast.Call) \
+                and isinstance(st.value.func, ast.Name) and st.value.func.id == "next" and len(st.value.args) == 2 and not st.value.keywords \
+                and isinstance(st.value.args[1], ast.Constant) and st.value.args[1].value is None and isinstance(st.value.args[0], ast.Call) \
+                and isinstance(nxt, ast.If) and not nxt.orelse and _ends_in_return(nxt.body):
+            T = st.targets[0].id
+            t = nxt.test
+            is_not_none = isinstance(t, ast.Compare) and len(t.ops) == 1 and isinstance(t.ops[0], ast.IsNot) and isinstance(t.left, ast.Name) and t.left.id == T \
+                and isinstance(t.comparators[0], ast.Constant) and t.comparators[0].value is None
+            h, skip = resolve_helper(repo, f, st.value.args[0])
+            inside = {id(x) for x in ast.walk(st)} | {id(x) for x in ast.walk(nxt)}
+            elsewhere = any(isinstance(x, ast.Name) and x.id == T and id(x) not in inside for x in ast.walk(f.node))
+            if is_not_none and h is not None and h.qname in new_funcs and h.node is not f.node and _is_generator(h.node) and not elsewhere and _yields_never_none(h.node):
+                loop = ast.For(target=ast.Name(id=T, ctx=ast.Store()), iter=st.value.args[0], body=nxt.body, orelse=[], lineno=getattr(st, "lineno", 0), col_offset=0)
+                ast.fix_missing_locations(loop)
+                out.append(loop)
+                i += 2
+                done = True
+        if not done:
+            out.append(st)
+            i += 1
+    return out
+
+
 def inline_new_helpers(repo, new_funcs, resolve_helper, bind_args, max_rounds=2):
     """transform repo.funcs' ASTs in place; returns {caller qname: [helper qnames spliced]}"""
     report = {}
@@ -821,6 +882,7 @@ def inline_new_helpers(repo, new_funcs, resolve_helper, bind_args, max_rounds=2)
             def rewrite(stmts):
                 nonlocal changed
                 stmts = _duplicate_tail_into_arms(stmts, repo, f, new_funcs, resolve_helper)
+                stmts = _first_of_generator(stmts, repo, f, new_funcs, resolve_helper)
                 out = []
                 for st in stmts:
                     # recurse into compound statements first
